@@ -154,6 +154,16 @@ func buildPool(root string, seed uint64, corrupt, churn int) error {
 		}
 		p.inputs = append(p.inputs, input{text: txt, origin: "sibling:" + src.origin, entry: e, paths: src.paths, family: src.family, class: clsSibling})
 	}
+	// normalisation siblings: texts that differ in raw form but collide under a plausible
+	// normalised key (unquoted name, upper-cased word, string value, token sequence)
+	for i := 0; i < corrupt/2; i++ {
+		src := p.inputs[corpus[rng.intn(len(corpus))]]
+		txt := normSibling(rng, src.text)
+		if txt == src.text {
+			continue
+		}
+		p.inputs = append(p.inputs, input{text: txt, origin: "sibling:" + src.origin, entry: src.entry, paths: src.paths, family: src.family, class: clsSibling})
+	}
 	// churn: many distinct identifiers (what a bounded cache or a pool needs to rotate)
 	for i := 0; i < churn; i++ {
 		txt, e := churnText(rng, i)
@@ -197,6 +207,9 @@ func buildPool(root string, seed uint64, corrupt, churn int) error {
 			} else {
 				bases = append(bases, opKey{Entry: eLex, Path: in.paths[0], Input: ii})
 			}
+		}
+		if i%3 == 0 {
+			bases = append(bases, opKey{Entry: eQuote, Path: in.paths[0], Input: ii}, opKey{Entry: eHandBuilt, Path: in.paths[1], Input: ii})
 		}
 		for j, b := range bases {
 			add(b) // variant 0
@@ -294,6 +307,117 @@ func siblingText(r *rng, s string) string {
 		b[sp[r.intn(len(sp))]] = '\n'
 	}
 	return string(b)
+}
+
+type word struct{ lo, hi int }
+
+// scanWords returns the identifier-like words of s outside quotes and comments, the string
+// literals, and the plain spaces.
+func scanWords(s string) (words []word, strs []word, spaces []int) {
+	i := 0
+	for i < len(s) {
+		c := s[i]
+		switch {
+		case c == '\'' || c == '"' || c == '`':
+			j := i + 1
+			for j < len(s) && s[j] != c {
+				if s[j] == '\\' {
+					j++
+				}
+				j++
+			}
+			if j < len(s) && c != '`' {
+				strs = append(strs, word{i, j + 1})
+			}
+			i = j + 1
+		case c == '-' && i+1 < len(s) && s[i+1] == '-', c == '#':
+			for i < len(s) && s[i] != '\n' {
+				i++
+			}
+		case c == '/' && i+1 < len(s) && s[i+1] == '*':
+			j := strings.Index(s[i+2:], "*/")
+			if j < 0 {
+				i = len(s)
+			} else {
+				i += j + 4
+			}
+		case c == '_' || 'a' <= c && c <= 'z' || 'A' <= c && c <= 'Z':
+			j := i
+			for j < len(s) && (s[j] == '_' || 'a' <= s[j] && s[j] <= 'z' || 'A' <= s[j] && s[j] <= 'Z' || '0' <= s[j] && s[j] <= '9') {
+				j++
+			}
+			words = append(words, word{i, j})
+			i = j
+		case c == ' ':
+			spaces = append(spaces, i)
+			i++
+		default:
+			i++
+		}
+	}
+	return
+}
+
+// normSibling rewrites one place of s into a differently spelled form.
+func normSibling(r *rng, s string) string {
+	words, strs, spaces := scanWords(s)
+	for tries := 0; tries < 6; tries++ {
+		switch r.intn(6) {
+		case 0, 1: // a.b -> `a.b` (quote-merge two path components)
+			var dotted []int
+			for i := 0; i+1 < len(words); i++ {
+				if words[i].hi+1 == words[i+1].lo && s[words[i].hi] == '.' {
+					dotted = append(dotted, i)
+				}
+			}
+			if len(dotted) == 0 {
+				continue
+			}
+			i := dotted[r.intn(len(dotted))]
+			return s[:words[i].lo] + "`" + s[words[i].lo:words[i+1].hi] + "`" + s[words[i+1].hi:]
+		case 2: // quote one word
+			if len(words) == 0 {
+				continue
+			}
+			w := words[r.intn(len(words))]
+			return s[:w.lo] + "`" + s[w.lo:w.hi] + "`" + s[w.hi:]
+		case 3: // flip the case of one word
+			if len(words) == 0 {
+				continue
+			}
+			w := words[r.intn(len(words))]
+			t := s[w.lo:w.hi]
+			u := strings.ToUpper(t)
+			if u == t {
+				u = strings.ToLower(t)
+			}
+			if r.intn(3) == 0 && len(t) > 1 {
+				u = strings.ToUpper(t[:1]) + strings.ToLower(t[1:])
+			}
+			return s[:w.lo] + u + s[w.hi:]
+		case 4: // another quote style for a string literal
+			if len(strs) == 0 {
+				continue
+			}
+			w := strs[r.intn(len(strs))]
+			body := s[w.lo+1 : w.hi-1]
+			if strings.ContainsAny(body, "'\"\\\n") || w.hi-w.lo < 2 {
+				continue
+			}
+			q := byte('"')
+			if s[w.lo] == '"' {
+				q = '\''
+			}
+			return s[:w.lo] + string(q) + body + string(q) + s[w.hi:]
+		case 5: // a comment where a space was
+			if len(spaces) == 0 {
+				continue
+			}
+			i := spaces[r.intn(len(spaces))]
+			return s[:i] + " /*n*/ " + s[i+1:]
+		}
+	}
+	return s
 }
 
 var churnTemplates = []struct {
